@@ -8,6 +8,8 @@
 //     B  token from stranger #9 to #7          C  token from stranger #11 to #7
 //     N  neutral telegram (status request to an absent station)
 //     L  silence longer than #7's token-lost time-out (the station recovers the token itself)
+//     S  token from the registered predecessor, then the successor that is handed the token stays silent
+//        (the pass must be repeated exactly twice, then the successor is dropped; a successor that was heard is never dropped)
 // up to the given depth is run, and every token offer is judged against the statement of C11:
 //   accept at once from the registered predecessor; from another station only on its second consecutive offer; a first
 //   offer is declined, and an offer made before the station last held the token does not count as "first".
@@ -118,10 +120,12 @@ pub mod c11_hist {
             let end = self.now + bits(max_bits);
             while self.now < end {
                 self.step();
-                let f = self.fresh();
-                if let Some(e) = f.into_iter().find(|e| pred(e)) {
-                    return Some(e);
+                // the matching event stays "fresh" for whoever looks next (it may be the hand-over itself)
+                if let Some(k) = (self.seen..self.log.len()).find(|k| pred(&self.log[*k].1)) {
+                    self.seen = k;
+                    return Some(self.log[k].1.clone());
                 }
+                self.seen = self.log.len();
             }
             None
         }
@@ -188,11 +192,56 @@ pub mod c11_hist {
     }
 
     /// the environment (as `x`) shows that it took the token: a status request to an absent station
-    fn neutral(w: &mut World, x: u8) {
+    fn neutral(w: &mut World, x: u8) -> Result<(), String> {
         w.send(&sd1(30, x, 0x49));
         // nobody answers; wait out the own slot time
         w.run_bits(u32::from(SLOT) + 20);
-        let _ = w.fresh();
+        // C11: a successor that was heard is never dropped, the pass is not repeated
+        if w.fresh().iter().any(|e| matches!(e, Ev::Token { sa, .. } if *sa == TS)) {
+            return Err(format!("the station repeated its token pass although successor #{x} was heard transmitting"));
+        }
+        Ok(())
+    }
+
+    /// The environment stays silent after being handed the token (to `x`): the station must repeat the pass exactly
+    /// twice (three passes in all), then stop passing to `x`.
+    fn silent_successor(w: &mut World, x: u8) -> Result<(), String> {
+        let mut passes = 1;
+        let mut others = 0;
+        let end = w.now + bits(3 * (u32::from(SLOT) + 140) + 200);
+        while w.now < end {
+            w.step();
+            for e in w.fresh() {
+                match e {
+                    Ev::Token { da, sa } if sa == TS && da == x => passes += 1,
+                    Ev::Token { sa, .. } | Ev::Data { sa, .. } if sa == TS => others += 1,
+                    _ => (),
+                }
+            }
+        }
+        if passes != 3 && std::env::var("VERIF_SIM_TRACE").is_ok() {
+            for (t, e) in w.log.iter().rev().take(14).rev() {
+                eprintln!("   {:>9} us  {:?}", t.total_micros(), e);
+            }
+        }
+        if passes != 3 {
+            return Err(format!("silent successor #{x}: the station passed the token to it {passes} times in all (C11: first pass plus exactly two repeats), then sent {others} other telegrams"));
+        }
+        // afterwards #x is no longer the successor: no further pass to it until it has been polled in again
+        let end = w.now + bits(2500);
+        while w.now < end {
+            w.step();
+            for e in w.fresh() {
+                match e {
+                    Ev::Token { da, sa } if sa == TS && da == x => {
+                        return Err(format!("silent successor #{x}: the station passed the token to it a fourth time instead of removing it from its ring view"));
+                    }
+                    Ev::Data { da, sa, status_req: true, .. } if sa == TS && da == x => return Ok(()),
+                    _ => (),
+                }
+            }
+        }
+        Ok(())
     }
 
     fn run_history(h: &str, trace: bool) -> Result<String, String> {
@@ -202,7 +251,7 @@ pub mod c11_hist {
         if x != P15 {
             return Err(format!("prologue: token handed to #{x}, expected #15"));
         }
-        neutral(&mut w, P15);
+        neutral(&mut w, P15)?;
         // model of the station's acceptance state (from the statement of C11)
         let mut ps: u8 = P15; // registered predecessor
         let mut pending: Option<u8> = None; // stranger whose first offer was declined
@@ -213,8 +262,34 @@ pub mod c11_hist {
         for (i, a) in h.chars().enumerate() {
             match a {
                 'N' => {
-                    neutral(&mut w, holder_env);
+                    neutral(&mut w, holder_env)?;
                     pending_fresh = false;
+                }
+                'S' => {
+                    // token from the registered predecessor (accepted), then the successor stays silent
+                    w.send(&token(TS, ps));
+                    let _ = w.fresh();
+                    if w.until(300, from_station).is_none() {
+                        return Err(format!("action {i} (S): token from the registered predecessor #{ps} was declined"));
+                    }
+                    pending = None;
+                    pending_fresh = false;
+                    held_since_pending = true;
+                    let x = await_handover(&mut w, 200_000).ok_or(format!("action {i} (S): the station never handed the token on"))?;
+                    silent_successor(&mut w, x).map_err(|e| format!("action {i} (S): {e}"))?;
+                    // the station is alone now; it polls #15 in again and hands the token over
+                    match await_handover(&mut w, 400_000) {
+                        Some(x2) if x2 == P15 => {
+                            holder_env = P15;
+                            ps = P15;
+                            neutral(&mut w, P15)?;
+                        }
+                        Some(_) | None => {
+                            // ring view not as simple as the model assumes from here on: stop judging this history
+                            notes.push_str(&format!("[{i}:S model ends]"));
+                            return Ok(notes);
+                        }
+                    }
                 }
                 'L' => {
                     // stay silent until the station recovers the token (time-out (6 + 2*7) slot times) and hands it on again
@@ -227,7 +302,7 @@ pub mod c11_hist {
                     match await_handover(&mut w, 200_000) {
                         Some(x) => {
                             holder_env = x;
-                            neutral(&mut w, x);
+                            neutral(&mut w, x)?;
                         }
                         None => return Err(format!("action {i} (L): after recovering the token the station never handed it on")),
                     }
@@ -278,7 +353,7 @@ pub mod c11_hist {
                         match await_handover(&mut w, 200_000) {
                             Some(x) => {
                                 holder_env = x;
-                                neutral(&mut w, x);
+                                neutral(&mut w, x)?;
                             }
                             None => return Err(format!("action {i} ({a}): after accepting the token the station never handed it on")),
                         }
@@ -318,7 +393,7 @@ pub mod c11_hist {
     }
 
     fn all_histories(depth: usize) -> Vec<String> {
-        let alphabet = ['A', 'B', 'C', 'N', 'L'];
+        let alphabet = ['A', 'B', 'C', 'N', 'L', 'S'];
         let mut out = vec![String::new()];
         let mut frontier = vec![String::new()];
         for _ in 0..depth {
@@ -343,7 +418,7 @@ pub mod c11_hist {
         let esc = |s: &str| s.replace('\\', "/").replace('"', "'").replace('\n', " ");
         let replay = args.iter().find_map(|a| {
             a.strip_prefix("hist=").map(|s| s.to_string()).or_else(|| {
-                if !a.is_empty() && a.chars().all(|c| "ABCNL".contains(c)) { Some(a.clone()) } else { None }
+                if !a.is_empty() && a.chars().all(|c| "ABCNLS".contains(c)) { Some(a.clone()) } else { None }
             })
         });
         if let Some(h) = replay {
